@@ -26,7 +26,7 @@ func init() {
 			{ID: "C07-R2", Title: "the remainder buffer is kept only while it has unread data", Decides: "no end-of-stream while the peer is connected", Floor: 2, Run: c07r2},
 			{ID: "C07-R3", Title: "no plaintext dropped on a stream-read error", Decides: "no byte lost across read time-outs", Floor: 1, Run: c07r3},
 			{ID: "C07-R4", Title: "the remainder is fetched only when none is pending", Decides: "no byte lost or reordered between messages", Floor: 1, Run: c07r4},
-			{ID: "C07-R5", Title: "frame pieces are read completely however the network splits them", Decides: "frames split at every offset are reassembled", Floor: 1, Run: c07r5},
+			{ID: "C07-R5", Title: "frame pieces are read completely however the network splits them; a frame is consumed only when it is complete, and handed out at once", Decides: "frames split at every offset are reassembled", Floor: 1, Run: func(c *core.Ctx) { c07r5(c); frameAtATime(c) }},
 			{ID: "C07-R6", Title: "a short frame ends the message; one decrypt per read, errors returned; counter advanced after the frame is read; read-ahead never discarded", Decides: "no byte lost across time-outs, coalesced frames and deadlines", Floor: 5, Run: c07r6},
 		},
 	})
@@ -98,7 +98,14 @@ func c07r1(c *core.Ctx) {
 			// raw socket itself (unbuffered) is acceptable as well: nothing is read ahead then
 			return true
 		})
-		c.Check(fromField, "decrypt-source@"+fname(dr), posOf(s), "Decrypt reads from a reader held in the Connection", "Decrypt is given a reader that does not live in the Connection: whatever it buffers is lost after the call")
+		if !fromField {
+			// ... or from a reader over one complete frame peeked from the read-ahead buffer held in the Connection (nothing is
+			// buffered by that reader beyond the frame, and the frame is discarded from the read-ahead buffer afterwards)
+			if ok, _, _ := frameAtATimeHolds(p); ok {
+				fromField = true
+			}
+		}
+		c.Check(fromField, "decrypt-source@"+fname(dr), posOf(s), "Decrypt reads from a reader held in the Connection, or from one complete frame peeked from it", "Decrypt is given a reader that does not live in the Connection: whatever it buffers is lost after the call")
 	}
 }
 
@@ -416,6 +423,17 @@ func c07r2(c *core.Ctx) {
 }
 
 func c07r3(c *core.Ctx) {
+	// Observed at Connection.Read, which is where C07 looks: when the read path hands Decrypt complete frames only (frame-at-a-time),
+	// Decrypt's reads cannot fail between or inside frames, so no path of it drops plaintext on the way to the connection's reader.
+	if ok, site, _ := frameAtATimeHolds(c.P); ok {
+		c.OK("(*secureSession).Decrypt/return-after-append", site.Pos(), "Decrypt is handed one complete frame at a time by the connection's read path: none of its stream reads can fail with plaintext of an earlier frame pending")
+		return
+	}
+	decryptDropsPlaintext(c, "(*secureSession).Decrypt/return-after-append", false)
+}
+
+// decryptDropsPlaintext: paths of Decrypt that return (nil, stream-read error) after plaintext of earlier frames was accumulated.
+func decryptDropsPlaintext(c *core.Ctx, construct string, failClosedOK bool) {
 	p := c.P
 	dec := p.Func("crypto", "(*secureSession).Decrypt")
 	if dec == nil {
@@ -452,7 +470,19 @@ func c07r3(c *core.Ctx) {
 				}
 			}
 		})
-		if appended {
+		// fail-closed: the session is marked final on this path (a field of the session is set to the error): the plaintext is lost,
+		// but nothing is released afterwards either — for C05, which asks for prefixes only, that is in order
+		final := false
+		if failClosedOK {
+			pa.Instrs(func(i ssa.Instruction) {
+				if st, ok := i.(*ssa.Store); ok {
+					if fa, ok := st.Addr.(*ssa.FieldAddr); ok && core.TypeIs(fa.X.Type(), tSecure) && !core.IsNilConst(st.Val) && st.Val.Type().String() == "error" {
+						final = true
+					}
+				}
+			})
+		}
+		if appended && !final {
 			bad++
 			if witness == nil {
 				witness = pa
@@ -461,10 +491,10 @@ func c07r3(c *core.Ctx) {
 	})
 	c.Count("paths_enumerated", total)
 	if bad > 0 {
-		c.BadPath("(*secureSession).Decrypt/return-after-append", dec.Pos(), witness.Describe(p),
+		c.BadPath(construct, dec.Pos(), witness.Describe(p),
 			"%d path(s) return (nil, stream-read error) after plaintext of earlier frames was appended: the counter has advanced and that plaintext is discarded (e.g. a full 1024-byte frame followed by a read time-out)", bad)
 	} else {
-		c.OK("(*secureSession).Decrypt/return-after-append", dec.Pos(), "no path drops accumulated plaintext on a stream-read error")
+		c.OK(construct, dec.Pos(), "no path drops accumulated plaintext on a stream-read error")
 	}
 }
 
